@@ -206,7 +206,7 @@ class Taint:
         if c[0] == "f":
             g = self.prog.resolve(f.unit, c[1])
             return [g] if g else None
-        if c[0] == "i":
+        if c[0] in ("i", "a"):
             return self.resolve_slots(f, i) or None
         return None
 
@@ -390,7 +390,7 @@ class Taint:
                             break
             elif op == "call":
                 c = i["callee"]
-                if c[0] == "i":
+                if c[0] in ("i", "a"):
                     self.counts["R4"] += 1
                     if self.level(f, c):
                         self._report("R4", f, i, "indirect call target depends on a secret", c)
